@@ -199,8 +199,25 @@ def spelled_cases(tier):
                         yield tpl, (s1, s2)
 
 
+# opacities next to the ends of the range (round 7): 0.96 is not 1 and 0.04 is not 0 - a group carrying one must still be
+# composited as a group, a shape carrying one is still (barely) visible
+NEAR = {"opacity": ["0.96", "0.04", "0.999"], "fill-opacity": ["0.97", "0.03"]}
+
+
+def near_cases(tier):
+    for tpl, levels in TEMPLATES.items():
+        near = [(lv, prop, carrier, v) for lv in levels for prop, vals in NEAR.items() for v in vals for carrier in (("attr", "style") if tier == "thorough" or tpl == "T1" else ("attr",))]
+        for s1 in near:
+            yield tpl, (s1,)
+        if tpl == "T1" or tier == "thorough":
+            for combo in itertools.combinations([s for s in near if s[2] == "attr"], 2):
+                if valid_combo(combo) and not excluded(combo):
+                    yield tpl, combo
+
+
 def all_cases(tier):
     yield from oor_cases(tier)
+    yield from near_cases(tier)
     yield from spelled_cases(tier)
     for tpl, levels in TEMPLATES.items():
         alpha = settings_alphabet(levels, "full" if tpl == "T1" else "small")
@@ -240,7 +257,7 @@ def run(run):
     run.rule = (
         "E2 deviation-bounded + R3: templates T1 root>g1>g2>{A (self-overlapping path), B (overlapping circle)}, T2 root>g1>use>target group t{A,B}, T3 root>{g1{A,C},B}, T4 root>{use>A (the shape itself), B}; "
         "setting = (level, property in {fill, fill-opacity, opacity, display, fill-rule, stroke}, carrier in {attribute, style, both with different values, style written with empty declarations and blanks, style repeating the property (last wins), style with !important + comments + a vendor property}, value incl. explicit defaults "
-        "and zero opacities); opacity / fill-opacity values outside 0..1 (1.5, -0.5, 2, -1) singly and paired with a second opacity setting at any level (the clamp precedes the product); all documents with 0, 1, 2 settings (quick; reduced alphabets for pairs on T2/T3), 3 settings on T1 (thorough). Excluded by scope: visible stroke together with an "
+        "and zero opacities); opacity / fill-opacity values outside 0..1 (1.5, -0.5, 2, -1) singly and paired with a second opacity setting at any level (the clamp precedes the product); opacity / fill-opacity values next to the ends of the range (0.96, 0.999, 0.04, 0.97, 0.03) singly at every level of every template and in pairs on T1; all documents with 0, 1, 2 settings (quick; reduced alphabets for pairs on T2/T3), 3 settings on T1 (thorough). Excluded by scope: visible stroke together with an "
         "opacity 0.5 setting. Oracle: canonical stacks and composites equal outside the band; vanished content absent (no display:none / fill:none / opacity 0 / empty path in the output). "
         "Non-trivial = document with >= 1 setting and >= 30 inside / >= 30 outside compared points."
     )
